@@ -613,6 +613,9 @@ class Scores:
     ):
         scores = scores.astype(float)  # Otherwise we can get problems with nextafter
 
+        # The special case target_ratio >= 1. below refers to the requested ratio, so we
+        # test it before shifting the ratio for right-continuous metrics.
+        is_max_ratio = target_ratio >= 1.0
         if not left_continuous:
             min_ratio = 1.0 / len(scores)
             target_ratio = target_ratio - min_ratio
@@ -636,7 +639,7 @@ class Scores:
 
         # Special cases of TPR <= 0. and TPR >= 1.
         threshold[target_ratio <= 0.0] = np.nextafter(scores[0], -np.inf)
-        threshold[target_ratio >= 1.0] = np.nextafter(scores[-1], np.inf)
+        threshold[is_max_ratio] = np.nextafter(scores[-1], np.inf)
 
         return threshold
 
